@@ -290,7 +290,38 @@ pub fn run(master: u64, runs: u64, long: u64, replay_dir: &str, tag: &str) -> Js
         .with("wall_s", Json::Float(wall))
 }
 
+/// Replays run `index` of a batch, rebuilt from its seed (used for runs that hung or killed the
+/// process, which therefore have no minimised record).  The run executes under a watchdog.
+pub fn replay_by_index(b: &Json) -> i32 {
+    let g = |k: &str| b.num_of(k).unwrap_or(0) as u64;
+    let (seed, idx, runs, long) = (g("seed"), g("index"), g("runs"), g("extra"));
+    let buf = buf_size();
+    println!("replaying reader run index {} of seed {} (runs {}, long {})", idx, seed, runs, long);
+    let res = simcore::par::with_timeout(simcore::par::hang_limit(), move || {
+        let mut acc = Acc::new();
+        one_run(&mut acc, seed, idx, runs, long, buf);
+        acc.violations.into_iter().next().map(|(c, (_, _, v))| (c, v.detail))
+    });
+    match res {
+        None => {
+            println!("REPLAY-VIOLATION class=reader/hang// detail=the run did not finish within {} s", simcore::par::hang_limit().as_secs());
+            1
+        }
+        Some(Some((c, d))) => {
+            println!("REPLAY-VIOLATION class={} detail={}", c, d);
+            1
+        }
+        Some(None) => {
+            println!("REPLAY-CLEAN");
+            0
+        }
+    }
+}
+
 pub fn replay(j: &Json) -> i32 {
+    if let Some(b) = j.get("by_index") {
+        return replay_by_index(b);
+    }
     let rec = match RRecord::from_json(j) {
         Some(r) => r,
         None => {
